@@ -304,13 +304,17 @@ namespace c9
             auto n = vh::prod(sv);
             if (n > vh::MAX_EMIT || n < 0) { out.i(-1); return; }
             out.i(n);
-            if (sv.size() == 0) return;
+            // (a 0-dimensional array has one element, read with the empty index - same convention as vh::emit_array)
             constexpr auto fd = meta::fixed_dim_v<array_t>;
             for (vh::Odo o(sv); !o.end; o.next()) {
                 if constexpr (!meta::is_fail_v<decltype(fd)>) {
-                    nmtools_array<nm_size_t, (nm_size_t)fd> idx{};
-                    for (nm_size_t i = 0; i < (nm_size_t)fd && i < sv.size(); i++) idx[i] = o.idx[i];
-                    out.num(static_cast<elem_t>(nm::apply_at(a, idx)));
+                    if constexpr ((nm_size_t)fd > 0) {
+                        nmtools_array<nm_size_t, (nm_size_t)fd> idx{};
+                        for (nm_size_t i = 0; i < (nm_size_t)fd && i < sv.size(); i++) idx[i] = o.idx[i];
+                        out.num(static_cast<elem_t>(nm::apply_at(a, idx)));
+                    } else {
+                        out.num(static_cast<elem_t>(nm::apply_at(a, o.idx)));
+                    }
                 } else {
                     out.num(static_cast<elem_t>(nm::apply_at(a, o.idx)));
                 }
